@@ -13,10 +13,10 @@ git apply --check "$S/patch.diff" || { echo "PATCH DOES NOT APPLY"; exit 1; }
 demo=$(ls "$S"/demo* | head -1)
 mkdir -p tests && cp "$demo" tests/seed_demo.rs
 # (3) without patch
-cargo test --offline --test seed_demo >"$S/confirm_without.log" 2>&1; rc_without=$?
+cargo test --offline --features auto-timezone,auto-country --test seed_demo >"$S/confirm_without.log" 2>&1; rc_without=$?
 git apply "$S/patch.diff"
 # (2) with patch
-cargo test --offline --test seed_demo >"$S/confirm_with.log" 2>&1; rc_with=$?
+cargo test --offline --features auto-timezone,auto-country --test seed_demo >"$S/confirm_with.log" 2>&1; rc_with=$?
 rm -rf tests
 # (1) suite with patch
 /verif/tools/baseline.sh "$WT" >"$S/confirm_suite.log" 2>&1; rc_suite=$?
@@ -40,8 +40,8 @@ meta = {
     "needs_to_manifest": "see README.agent.md",
     "confirmed": {
         "suite_passes_with_patch": "tools/baseline.sh <worktree> -> 113/113 stable tests, no other failure",
-        "demo_fails_with_patch": "cargo test --offline --test seed_demo -> non-zero",
-        "demo_passes_without_patch": "cargo test --offline --test seed_demo -> 0",
+        "demo_fails_with_patch": "cargo test --offline --features auto-timezone,auto-country --test seed_demo -> non-zero",
+        "demo_passes_without_patch": "cargo test --offline --features auto-timezone,auto-country --test seed_demo -> 0",
     },
     "detected_by": {},
 }
@@ -49,6 +49,6 @@ json.dump(meta, open(os.path.join(d, "meta.json"), "w"), indent=1)
 PY
     echo "CONFIRMED -> $D"
 else
-    echo "NOT CONFIRMED"; tail -5 "$S/confirm_without.log" "$S/confirm_with.log"
+    echo "NOT CONFIRMED"; tail -n 5 "$S/confirm_without.log"; tail -n 5 "$S/confirm_with.log"
     exit 1
 fi
